@@ -406,7 +406,8 @@ func (p *Process) stopProcess(cancelReadinessFuncs bool) error {
 		p.runCancelFn()
 	}
 	verifGate(p, "stop.cancelled")
-	if !p.isRunning() {
+	if !p.isRunning() || p.command == nil {
+		// command == nil: the shared state says running but this instance has launched nothing
 		log.Debug().Msgf("process %s is in state %s not shutting down", p.getName(), p.getStatusName())
 		verifGate(p, "stop.checked.notrunning")
 		// prevent pending process from running
